@@ -72,7 +72,6 @@ Definition per_second_sum (T : Z) (grad : list Z) : Z :=
 
 Definition twa_ok (start now : Z) (grad : list Z) (r : option Z) : bool :=
   if now <=? start then oeqb r (Some (nth 0 grad 0))
-  else if 2 ^ 63 - 1 <? now - start then true          (* arithmetic panic: outside the quantifier (i64 duration) *)
   else oeqb r (Some (per_second_sum (now - start) grad / (now - start))).
 
 Definition floor2 (value aps integral : Z) : Z := (value * aps / 10 ^ 20) * integral / 10 ^ 20.
@@ -105,7 +104,7 @@ Definition op_ok (enabled : bool) (dis_at dis_cum : Z) (t : track) (o : op) (ob 
             (* reward: follows the schedule for the elapsed window *)
             && (let '(cum_now, end_) := if enabled then (cum, now) else (dis_cum, dis_at) in
                 (c <=? cum_now)
-                && (if (end_ <=? st) || (2 ^ 63 - 1 <? end_ - st) then true
+                && (if (end_ <=? st) then true
                     else mint =? Z.min (2 ^ 64 - 1)
                                   (floor2 v (per_second_sum (end_ - st) (t_grad t) / (end_ - st) / 31557600) (cum_now - c)))
                 && match p' with Some (_, _, _, c') => c' =? cum_now | None => true end)
@@ -120,7 +119,7 @@ Definition op_ok (enabled : bool) (dis_at dis_cum : Z) (t : track) (o : op) (ob 
             && (let '(cum_now, end_) := if enabled then (cum, now) else (dis_cum, dis_at) in
                 (c <=? cum_now)
                 && match p' with Some (am', v', st', c') => (am' =? am) && (v' =? v) && (st' =? st) && (c' =? cum_now) | None => false end
-                && (if (end_ <=? st) || (2 ^ 63 - 1 <? end_ - st) then true
+                && (if (end_ <=? st) then true
                     else mint =? Z.min (2 ^ 64 - 1)
                                   (floor2 v (per_second_sum (end_ - st) (t_grad t) / (end_ - st) / 31557600) (cum_now - c))))
           else true
@@ -170,7 +169,7 @@ Definition known_b (c : case) : Z :=
   match c with
   | Twa start now base idx vals r =>
       let g := mk_grad base idx vals in
-      if (start <? now) && (now - start <=? 2 ^ 63 - 1) && (2 ^ 128 - 1 <? per_second_sum (now - start) g)
+      if (start <? now) && (2 ^ 128 - 1 <? per_second_sum (now - start) g)
          && negb (twa_ok start now g r)
          && oeqb r (Some ((2 ^ 128 - 1) / (now - start)))
       then 1 else 0
